@@ -55,6 +55,8 @@ CAPSETS = {
     # nothing (an empty list) announced after the handshake: no mechanism qualifies, whatever the caller prefers
     "tls-empty-after": dict(starttls=True, pre=b"PLAIN LOGIN", post=b"", authmech="PLAIN"),
     "digest": dict(starttls=False, pre=b"DIGEST-MD5", post=b"DIGEST-MD5"),
+    # the server's final DIGEST-MD5 data does not verify: it is the client that ends the login (no NO from the server)
+    "digest-bad-rspauth": dict(starttls=False, pre=b"DIGEST-MD5", post=b"DIGEST-MD5", bad_rspauth=True),
     "tls-digest-after": dict(starttls=True, pre=b"PLAIN", post=b"DIGEST-MD5 PLAIN"),
 }
 
@@ -68,6 +70,7 @@ def make_server(capset, faults, auth_ok=True):
     srv.handshake_ok_form = OK_FORM[0]
     srv.auth_final_sasl = FINAL_SASL[0]
     srv.digest_users = {"user": "pass"}
+    srv.digest_bad_rspauth = bool(CAPSETS[capset].get("bad_rspauth"))
     return srv
 
 
